@@ -25,9 +25,10 @@ theorem indexLoop_eq (r : List Nat) : ∀ index,
       | none => .error .missingRightBracket
       | some (s, r') =>
         if index ++ s = [] then .error .emptyAttribute
-        else match parseUsize (index ++ s) with
-          | some n => .ok (.index n, r')
-          | none => .ok (.stringIndex (index ++ s), r') := by
+        else match parseIndex (index ++ s) with
+          | .error e => .error e
+          | .ok (some n) => .ok (.index n, r')
+          | .ok none => .ok (.stringIndex (index ++ s), r') := by
   induction r with
   | nil => intro index; simp [indexLoop, upToRBracket]
   | cons c rest ih =>
@@ -42,19 +43,13 @@ theorem indexLoop_eq (r : List Nat) : ∀ index,
 
 /-- what the induction carries along the rest of a field name -/
 def restOk (decVal : Nat → Option Nat) (t : List Nat) : Prop :=
-  (∀ c ∈ t, charOk decVal c = true) ∧ ∃ v, runsSmall v t = true
+  ∀ c ∈ t, charOk decVal c = true
 
 theorem restOk_tail (decVal : Nat → Option Nat) (c : Nat) (t : List Nat) (h : restOk decVal (c :: t)) :
-    restOk decVal t := by
-  refine ⟨fun x hx => h.1 x (by simp [hx]), ?_⟩
-  obtain ⟨v, hv⟩ := h.2
-  exact runsSmall_append [c] t v hv
+    restOk decVal t := fun x hx => h x (by simp [hx])
 
 theorem restOk_append (decVal : Nat → Option Nat) (a b : List Nat) (h : restOk decVal (a ++ b)) :
-    restOk decVal b := by
-  refine ⟨fun x hx => h.1 x (by simp [hx]), ?_⟩
-  obtain ⟨v, hv⟩ := h.2
-  exact runsSmall_append a b v hv
+    restOk decVal b := fun x hx => h x (by simp [hx])
 
 /-- one accessor: same result, same rest (acceptance view), and the rest is fine again -/
 theorem part_eq (decVal : Nat → Option Nat)
@@ -88,23 +83,32 @@ theorem part_eq (decVal : Nat → Option Nat)
         | some p =>
           obtain ⟨s, r'⟩ := p
           have hr := upToRBracket_append r s r' hx
-          have hrun : runsSmall 0 (s ++ 93 :: r') = true := by
-            obtain ⟨v, hv⟩ := h.2
-            simp [runsSmall, isAsciiDigit] at hv
-            rw [← hr]; exact hv
-          have hs : ∀ c ∈ s, charOk decVal c = true := fun x hx => h.1 x (by simp [hr, hx])
-          have hint := integer_eq decVal hdec s (93 :: r') hs hrun
+          have hs : ∀ c ∈ s, charOk decVal c = true := fun x hx => h x (by simp [hr, hx])
+          have hint := integer_eq decVal hdec s hs
           have hok : restOk decVal r' := by
             have := restOk_tail decVal 91 r h
             rw [hr] at this
             exact restOk_tail decVal 93 r' (restOk_append decVal s _ this)
-          simp only [List.nil_append, hint]
+          simp only [List.nil_append]
           by_cases hse : s = []
-          · subst hse; simp [parseUsize]
+          · subst hse; simp [getInteger, accepted]
           · simp only [hse, ↓reduceIte]
-            cases hn : parseUsize s with
-            | some n => simp; exact hok
-            | none => simp; exact hok
+            generalize getInteger decVal s = x at hint ⊢
+            generalize parseIndex s = y at hint ⊢
+            cases x with
+            | error e1 =>
+              cases y with
+              | error e2 => simp [accepted]
+              | ok v => simp [accepted] at hint
+            | ok u =>
+              cases y with
+              | error e2 => simp [accepted] at hint
+              | ok v =>
+                simp [accepted] at hint
+                subst hint
+                cases u with
+                | some n => simp [accepted]; exact hok
+                | none => simp [accepted]; exact hok
       · simp [h1, h2]
 
 /-- the accessor loops in lockstep -/
